@@ -253,7 +253,7 @@ def run(ctx):
     elif not (cbase[0] and cstep[0]) or not cneg[1]:
         raise tlc.MachineryError("Apalache: the inductive invariant of CircularBufferInd does not go through: %s / %s / %s" % (cbase[3][-200:], cstep[3][-200:], cneg[3][-200:]))
     rnd = random.Random(ctx.seed * 7919 + 15)
-    n = 20 if quick else 200
+    n = 20 if quick else 600
     big = 200
     tr = split_failed([record(BufferAdapter(b, rnd.choice([None, rnd.randrange(big)]), rnd.choice([0, "", 0.0, ()])), reorder_ops(rnd, big, False)) for _ in range(n)], ctx, "ReorderBuffer")
     tracecheck.check_traces(RB, model.constants_block({"N": big, "MaxEpoch": 1, "Variant": '"ok"'}), tr, ctx, "ReorderBuffer", {"put"})
